@@ -10,4 +10,6 @@ Definition rust_actual : rquirks := {|
   q_chain_start_line := true;
   q_for_header_in_loop := true;
   q_clone_first_pattern := true;
+  q_blocking_msg_line := true;
+  q_wrapper_method_form := true;
   q_net_bare_type := true |}.
